@@ -65,29 +65,40 @@ func verifAdmit(cfg SuiteConfig, in OCRAInput) bool {
 	return a
 }
 
-//verif:harness prop=C14 name=validators
+//verif:harness prop=C14 name=suite
+//verif:cases quick rawlen=3 wrap=0,1
+//verif:cases thorough rawlen=0,3 wrap=0,1
+func verifH_C14_suite() {
+	cfg := verifSymConfig(verifCase("rawlen"))
+	var errS error
+	if verifCase("wrap") == 1 {
+		// the same through the Suite interface (RawSuite wraps a SuiteConfig)
+		var s Suite = RawSuite{SuiteConfig: cfg}
+		errS = s.Validate()
+		verifAssert(s.Config() == cfg, "rawsuite-config-is-the-config")
+	} else {
+		errS = cfg.Validate()
+	}
+	verifObserve("suite-ok", errS == nil)
+	verifAssert((errS == nil) == verifUsable(cfg), "suite-usable-iff-digits-hash-and-selected-fields-specified")
+}
+
+//verif:harness prop=C14 name=input
 //verif:cases quick nilmask=0,31,10 rawlen=3
 //verif:cases thorough nilmask=0..31 rawlen=0,3
-func verifH_C14_validators() {
+func verifH_C14_input() {
 	cfg := verifSymConfig(verifCase("rawlen"))
 	in := verifSymInput(verifCase("nilmask"))
-	errS := cfg.Validate()
 	errI := in.Validate(cfg)
-	verifObserve("suite-ok", errS == nil)
 	verifObserve("input-ok", errI == nil)
-	verifAssert((errS == nil) == verifUsable(cfg), "suite-usable-iff-digits-hash-and-selected-fields-specified")
 	verifAssert((errI == nil) == verifAdmit(cfg, in), "input-admitted-iff-selected-fields-meet-requirements")
-	// the same through the Suite interface (RawSuite wraps a SuiteConfig)
-	var s Suite = RawSuite{SuiteConfig: cfg}
-	verifAssert((s.Validate() == nil) == verifUsable(cfg), "rawsuite-validate-agrees")
-	verifAssert(s.Config() == cfg, "rawsuite-config-is-the-config")
 }
 
 // Through the entry points: generation and validation succeed / fail exactly by the
 // two predicates (secret decodable), before anything else is looked at.
 //
 //verif:harness prop=C14 name=entry
-//verif:cases quick nilmask=0 rawlen=3 which=0,1 wrap=0,1 hash=0,2,3 digits=6,11
+//verif:cases quick nilmask=0 rawlen=3 which=0 wrap=1 hash=0,3 digits=6,11
 //verif:cases thorough nilmask=0,31,21 rawlen=0,3 which=0,1 wrap=0,1 hash=0..3 digits=3,4,6,10,11
 //verif:replace github.com/ja7ad/otp.DecodeSecret=verifStub_DecodeSecret
 //verif:opt maxpaths=6000 unwind=400 hmac=fresh
